@@ -369,14 +369,17 @@ def check_router_chain(ctx, model):
     # the simulation query's offer amount derives from the previous response's return_amount (loop-carried)
     ok = False
     det = []
-    for b, i, s in v.iter_stmts():
-        rv = s["rv"]
-        if rv["r"] == "agg" and rv.get("adt", "").endswith("asset::Asset"):
-            f = dict(zip(rv["fields"], rv["ops"]))
-            os_ = v.origins_of_operand(f["amount"], at=(b, i))
-            det.append(sorted(map(repr, os_)))
-            if any(o.proj and o.proj[-1] == "return_amount" for o in os_) and any(o.kind == "param" for o in os_):
-                ok = True
+    from .common import scope_views, scope_origins
+    for sv, chain in scope_views(model, p):
+        for b, i, s in sv.iter_stmts():
+            rv = s["rv"]
+            if rv["r"] == "agg" and rv.get("adt", "").endswith("asset::Asset"):
+                f = dict(zip(rv["fields"], rv["ops"]))
+                # a loop-carried variable or the accumulator of a fold: the initial offer or the previous hop's return
+                os_ = scope_origins(model, chain, sv, f["amount"], (b, i))
+                det.append(sorted(map(repr, os_)))
+                if any(o.proj and o.proj[-1] == "return_amount" for o in os_) and any(o.kind == "param" and o.b == p for o in os_):
+                    ok = True
     ctx.ob("C14-S5", "%s|hop-chaining" % p, ok, "offer amount of each simulated hop: %s (must be the initial offer or the previous hop's return_amount)" % det[:3], v.where())
 
 
